@@ -86,7 +86,8 @@ def judge_patterns(rep, pats, subsets, tag):
         if r["steps"] >= STEP_LIMIT:
             over += 1            # outside the property's domain (budget exhausted): not judged, counted
             continue
-        rec = {"id": r["id"], "ast": p["ast"], "fl": p["fl"], "subs": p.get("subs") or "", "sl": p.get("sl") or [], "o": r["o"], "ch": r["ch"]}
+        rec = {"id": r["id"], "ast": p["ast"], "fl": p["fl"], "subs": p.get("subs") or "", "sl": p.get("sl") or [], "o": r["o"], "ch": r["ch"],
+               "open": sorted(rep.findings)}        # names only: which of the spec's named rules are open findings (known_findings/C09.json)
         recs.append(rec)
     if over:
         rep.notes["over_budget_" + tag] = over
